@@ -261,15 +261,16 @@ Proof.
 Qed.
 Lemma frame_put_auction id s a : a_id a = id -> frame id s (put_auction s a).
 Proof. intros <-. triv_slice. apply find_auction_put_other. exact Hj. Qed.
-Lemma frame_append_auction id s a : a_id a = id -> frame id s (with_auctions s (st_auctions s ++ [a])).
+Lemma frame_append_auction id s l a :
+  l = st_auctions s -> a_id a = id -> frame id s (with_auctions s (l ++ [a])).
 Proof.
-  intros <-. triv_slice. rewrite find_auction_append.
+  intros -> <-. triv_slice. rewrite find_auction_append.
   destruct (find_auction s j); [reflexivity|].
   destruct (N.eqb (a_id a) j) eqn:E; [neqb; congruence|reflexivity].
 Qed.
-Lemma frame_append_bid id s b : b_auction b = id -> frame id s (with_bids s (st_bids s ++ [b])).
+Lemma frame_append_bid id s l b : l = st_bids s -> b_auction b = id -> frame id s (with_bids s (l ++ [b])).
 Proof.
-  intros <-. triv_slice. unfold bids_of. cbn [st_bids with_bids].
+  intros -> <-. triv_slice. unfold bids_of. cbn [st_bids with_bids].
   apply filter_app_none. intros x [<-|[]]. apply N.eqb_neq. congruence.
 Qed.
 Lemma frame_put_bid id s b : b_auction b = id -> frame id s (put_bid s b).
@@ -296,10 +297,10 @@ Proof.
   - unfold set_flags. cbn [st_mlen with_mlen with_bids]. unfold upd.
     apply N.eqb_neq in Hj. rewrite Hj. reflexivity.
 Qed.
-Lemma frame_append_vqs id s l :
-  (forall v, In v l -> v_auction v = id) -> frame id s (with_vqs s (st_vqs s ++ l)).
+Lemma frame_append_vqs id s l0 l :
+  l0 = st_vqs s -> (forall v, In v l -> v_auction v = id) -> frame id s (with_vqs s (l0 ++ l)).
 Proof.
-  intros H. triv_slice. unfold vqs_of. cbn [st_vqs with_vqs].
+  intros -> H. triv_slice. unfold vqs_of. cbn [st_vqs with_vqs].
   apply filter_app_none. intros x Hx. apply N.eqb_neq. rewrite (H x Hx). congruence.
 Qed.
 Lemma frame_map_vqs id s (g : vq -> vq) :
@@ -327,15 +328,15 @@ Ltac frame_tac :=
   | |- frame _ ?s (put_auction ?s1 _) =>
       apply frame_trans with s1; [frame_tac | apply frame_put_auction; try reflexivity; try assumption]
   | |- frame _ ?s (with_auctions ?s1 (_ ++ [_])) =>
-      apply frame_trans with s1; [frame_tac | apply frame_append_auction; try reflexivity; try assumption]
+      apply frame_trans with s1; [frame_tac | apply frame_append_auction; [reflexivity | try reflexivity; try assumption]]
   | |- frame _ ?s (with_bids ?s1 (_ ++ [_])) =>
-      apply frame_trans with s1; [frame_tac | apply frame_append_bid; try reflexivity; try assumption]
+      apply frame_trans with s1; [frame_tac | apply frame_append_bid; [reflexivity | try reflexivity; try assumption]]
   | |- frame _ ?s (put_bid ?s1 _) =>
       apply frame_trans with s1; [frame_tac | apply frame_put_bid; try reflexivity; try assumption]
   | |- frame _ ?s (put_allowed ?s1 _ _ _) => apply frame_trans with s1; [frame_tac | apply frame_put_allowed]
   | |- frame _ ?s (set_flags ?s1 _ _) => apply frame_trans with s1; [frame_tac | apply frame_set_flags]
   | |- frame _ ?s (with_vqs ?s1 (_ ++ _)) =>
-      apply frame_trans with s1; [frame_tac | apply frame_append_vqs; try assumption]
+      apply frame_trans with s1; [frame_tac | apply frame_append_vqs; [reflexivity | try assumption]]
   | |- _ => try assumption
   end.
 
@@ -519,3 +520,10 @@ Proof.
   - injection HF as ->. exists (g b). split; [reflexivity|apply K].
   - apply IH. exact HF.
 Qed.
+
+Ltac frame_tac2 :=
+  lazymatch goal with
+  | |- frame _ ?s (with_allowed ?s1 _) =>
+      apply frame_trans with s1; [frame_tac2 | apply frame_with_allowed; try assumption]
+  | |- _ => frame_tac
+  end.
